@@ -206,6 +206,16 @@ class Contract:
         self.at_call_.append((callee_key, label, expr, prop))
         return self
 
+    def yield_at(self, callee_key, paths, guarantee=None, tag=None):
+        """Interference point: at every call of `callee_key` (e.g. time.sleep) other threads run; the listed paths are havocked there and
+        `guarantee` (what the other threads preserve; an assumption listed under `tag`) is assumed afterwards."""
+        if not hasattr(self, "yield_at_"):
+            self.yield_at_ = []
+        self.yield_at_.append((callee_key, list(paths), guarantee, tag))
+        if tag:
+            self.assumes(tag)
+        return self
+
     def free(self, name, T):
         """Free variable of a nested function (bound like a parameter)."""
         if not hasattr(self, "free_vars"):
